@@ -17,11 +17,12 @@ injective, e.g. shift_jis maps U+00A5 to 0x5C); otherwise the case is only count
 import codecs
 import re
 
-from hypothesis import strategies as st
+import runner
+from dmgen import canon, pick, surrogate_text, text, uni_text
 
 PID = "C32"
 LEVEL = "exploration"
-TECHNIQUE = "Hypothesis structured text x content-type generation; set/get round trip + independent Content-Type reader"
+TECHNIQUE = "seeded-PRNG structured text x content-type generation; set/get round trip + independent Content-Type reader"
 RULE = ("texts assembled from <=6 pieces (ascii, latin-1, BMP, astral, BOM look-alikes, U+FEFF, in-body charset "
         "declarations, surrogate-escaped bytes) x 14 media types x 24 charset parameters x request/response x "
         "content-encoding; non-trivial = text is non-ASCII or carries a BOM-like prefix/in-body declaration; "
@@ -30,7 +31,7 @@ ASSUMPTIONS = ["Python's codec for the declared charset round-trips the text (ch
                "surrogate-escaped input is of the form bytes.decode('utf-8','surrogateescape')"]
 LEVEL_TEXT = "randomised search over text/content-type combinations with an explicit round-trip oracle"
 LEVEL_NOTE = "trusts CPython codecs"
-QUICK_N, THOROUGH_N = 80_000, 5_000_000
+QUICK_N, THOROUGH_N = 800_000, 6_000_000
 
 TYPES = ["text/plain", "text/html", "application/xhtml+xml", "text/xml", "application/xml", "text/css",
          "application/json", "application/javascript", "text/javascript", "application/ld+json", "image/svg+xml",
@@ -40,41 +41,38 @@ CHARSETS = [None, None, None, "utf-8", "utf8", "UTF-8", "latin-1", "iso-8859-1",
             "windows-1251", "koi8-r", "iso-8859-15", "euc-jp", "big5", "x-unknown", "", '"utf-8"', "utf-8-sig"]
 DECL_CHARSETS = ["utf-8", "latin-1", "iso-8859-1", "utf-16", "gb2312", "ascii", "windows-1252", "bogus", "UTF-8", "koi8-r"]
 
-_ascii = st.text(alphabet=st.characters(min_codepoint=32, max_codepoint=126), max_size=8)
-_latin = st.text(alphabet=st.characters(min_codepoint=0xA0, max_codepoint=0xFF), min_size=1, max_size=4)
-_bmp = st.text(alphabet=st.characters(min_codepoint=0x100, max_codepoint=0xFFFF, blacklist_categories=("Cs",)), min_size=1, max_size=4)
-_astral = st.text(alphabet=st.characters(min_codepoint=0x10000, max_codepoint=0x10FFFF), min_size=1, max_size=3)
-_any = st.text(alphabet=st.characters(blacklist_categories=("Cs",)), max_size=6)
-_special = st.sampled_from(["\ufeff", "\xff\xfe", "\xfe\xff", "\xef\xbb\xbf", "\x00\x00\xfe\xff", "\xff\xfe\x00\x00",
-                            "\ufffe", "\ufeff\x00", "\u20ac", "\xe9", "\u4e2d\u6587", "\U0001f600", "\r\n", "\x00", "\x7f",
-                            "\x80", "\xa5", "\u203e"])
-_decl = st.builds(
-    lambda form, cs: form % cs,
-    st.sampled_from(['<meta charset="%s">', "<meta charset=%s>", '<META http-equiv="Content-Type" content="text/html; charset=%s">',
-                     '<?xml version="1.0" encoding="%s"?>', "<?xml version='1.0' encoding='%s'?>", '@charset "%s";']),
-    st.sampled_from(DECL_CHARSETS))
-_surr = st.binary(min_size=1, max_size=6).map(lambda b: b.decode("utf-8", "surrogateescape"))
-
-_piece = st.one_of(_ascii, _ascii, _latin, _bmp, _astral, _any, _special, _special, _decl, _surr)
+_SPECIAL = ["\ufeff", "\xff\xfe", "\xfe\xff", "\xef\xbb\xbf", "\x00\x00\xfe\xff", "\xff\xfe\x00\x00",
+            "\ufffe", "\ufeff\x00", "\u20ac", "\xe9", "\u4e2d\u6587", "\U0001f600", "\r\n", "\x00", "\x7f",
+            "\x80", "\xa5", "\u203e"]
+_DECL_FORMS = ['<meta charset="%s">', "<meta charset=%s>", '<META http-equiv="Content-Type" content="text/html; charset=%s">',
+               '<?xml version="1.0" encoding="%s"?>', "<?xml version='1.0' encoding='%s'?>", '@charset "%s";']
+_ASCII = "".join(chr(c) for c in range(32, 127))
+_LATIN = "".join(chr(c) for c in range(0xA0, 0x100))
+_CODINGS = [None, None, None, "gzip", "br", "identity"]
 
 
-def _canon(s):
-    """adjacent surrogate-escaped bytes from different pieces may form valid UTF-8; re-decode so that the string is what
-    bytes.decode('utf-8', 'surrogateescape') would really produce"""
-    try:
-        return s.encode("utf-8", "surrogateescape").decode("utf-8", "surrogateescape")
-    except UnicodeEncodeError:
-        return s
+def _g_piece(rnd):
+    r = rnd.randrange(10)
+    if r in (0, 1):
+        return text(rnd, _ASCII, 0, 8)
+    if r == 2:
+        return text(rnd, _LATIN, 1, 4)
+    if r in (3, 4, 5):
+        return uni_text(rnd, 0, 5)
+    if r in (6, 7):
+        return pick(rnd, _SPECIAL)
+    if r == 8:
+        return pick(rnd, _DECL_FORMS) % pick(rnd, DECL_CHARSETS)
+    return surrogate_text(rnd, 1, 6)
 
 
-def strategy(ctx):
-    return st.tuples(
-        st.booleans(),                       # request?
-        st.sampled_from(TYPES),
-        st.sampled_from(CHARSETS),
-        st.sampled_from([None, None, None, "gzip", "br", "identity"]),
-        st.lists(_piece, min_size=1, max_size=6).map("".join).map(_canon),
-    )
+def build(rnd):
+    s = canon("".join(_g_piece(rnd) for _ in range(rnd.randint(1, 6))))
+    return [rnd.random() < 0.5, pick(rnd, TYPES), pick(rnd, CHARSETS), pick(rnd, _CODINGS), s]
+
+
+def run(ctx):
+    runner.fast(ctx, build, check_case, ctx.n(QUICK_N, THOROUGH_N))
 
 
 # ------------------------------------------------------------------ independent helpers
